@@ -53,6 +53,7 @@ type Prog struct {
 	Fix      *Prog
 
 	declCache map[*types.Func]*ast.FuncDecl
+	allWT     *WriteThrough // write-through facts over all repository functions (built on first use)
 }
 
 func loadEnv() []string {
